@@ -7,6 +7,7 @@
 From Coq Require Import List NArith Bool Arith.
 From Snow Require Import Lib.Wire Model.ClientIdRing Model.ClientAddr Model.ServerCarrier Model.ServerAccept
                          Proofs.ClientIdProofs Proofs.ServerAcceptProofs.
+From Snow Require Import Model.ProxyClientIP Proofs.ProxyClientIPProofs.
 Import ListNotations.
 Open Scope nat_scope.
 
@@ -239,3 +240,54 @@ Theorem C18_shared_variable_refuted :
     a <> AStr [] /\ (forall p, In (LCarrier cid p) evs -> a <> AStr (sanitise p)) /\
     (exists cid' p', cid' <> cid /\ In (LCarrier cid' p') evs /\ a = AStr (sanitise p')).
 Proof. exact shared_variable_refuted. Qed.
+
+(* ================================================================ the proxy side of the chain: the client_ip on the relay URL
+   Model/ProxyClientIP.v: ONE proxy, any number of clients; each client's handler (proxy/lib/snowflake.go
+   datachannelHandler) takes the relay URL the broker assigned - or the proxy's default when it assigned none -, sets
+   client_ip to the remote address found for THAT client when there is one, and dials.  The handlers run concurrently:
+   [prun dflt tr] for EVERY schedule tr of their steps (spawn, parse, set the query, dial), any sessions, with and
+   without a known remote address, with and without an assigned relay URL. *)
+
+(* the URL a session is dialled with is a function of the proxy's default relay and of that session ALONE
+   ([relay_url_of]), under every schedule and whatever other sessions exist, ran before or run at the same time; and a
+   session is dialled at most once *)
+Theorem C18_proxy_dial_is_of_its_session : forall (dflt : rurl) (tr : list plabel) (i : nat) (u : rurl),
+  In (i, u) (p_dials (prun dflt tr)) ->
+  exists s, nth_error (p_handlers (prun dflt tr)) i = Some (s, H_Dialed) /\ u = relay_url_of dflt s.
+Proof. exact dial_is_of_its_session. Qed.
+
+Theorem C18_proxy_one_dial_per_session : forall (dflt : rurl) (tr : list plabel), NoDup (map fst (p_dials (prun dflt tr))).
+Proof. exact one_dial_per_session. Qed.
+
+(* the handlers are the spawned sessions, in spawn order, whatever the schedule *)
+Theorem C18_proxy_handlers_are_spawned : forall (dflt : rurl) (tr : list plabel),
+  map fst (p_handlers (prun dflt tr)) = spawned tr.
+Proof. exact handlers_are_spawned. Qed.
+
+(* the client_ip on a session's dial is that session's remote address; when the proxy knows none, the dial carries
+   whatever client_ip the relay URL had by itself (none, for every relay URL in use: the default and the bridge list's
+   carry no query) - never the address of another session.  The relay (base) is the session's own, too. *)
+Theorem C18_proxy_client_ip_own : forall (dflt : rurl) (tr : list plabel) (i : nat) (u : rurl),
+  In (i, u) (p_dials (prun dflt tr)) ->
+  exists s pc, nth_error (p_handlers (prun dflt tr)) i = Some (s, pc) /\ ru_base u = ru_base (base_of dflt s) /\
+    q_values CLIENT_IP (ru_query u) =
+      match s_addr s with Some a => [a] | None => q_values CLIENT_IP (ru_query (base_of dflt s)) end.
+Proof. exact dial_client_ip. Qed.
+
+(* every other parameter of the relay URL goes through unchanged *)
+Theorem C18_proxy_other_params_kept : forall (dflt : rurl) (s : session) (k : bytes), beq k CLIENT_IP = false ->
+  q_values k (ru_query (relay_url_of dflt s)) = q_values k (ru_query (base_of dflt s)).
+Proof. exact other_params_kept. Qed.
+
+(* non-vacuity: three clients of one proxy whose handlers run all together (the query steps in reverse order): a client
+   with a known address on the default relay, one WITHOUT on the default relay, one with a known address on a relay the
+   broker assigned.  Each dial carries its own session's address or none. *)
+Example C18_proxy_witness :
+  let dflt := mk_rurl [100]%N [] in
+  let a1 := [49; 46; 50; 46; 51; 46; 52]%N in let a3 := [53; 46; 54; 46; 55; 46; 56]%N in
+  let ss := [mk_session None (Some a1); mk_session None None; mk_session (Some (mk_rurl [117; 49]%N [([120]%N, [49]%N)])) (Some a3)] in
+  p_dials (prun dflt (conc_labels ss)) =
+    [(0, mk_rurl [100]%N [(CLIENT_IP, a1)]); (1, mk_rurl [100]%N []); (2, mk_rurl [117; 49]%N [([120]%N, [49]%N); (CLIENT_IP, a3)])] /\
+  In (1, mk_rurl [100]%N []) (p_dials (prun dflt (conc_labels ss))) /\
+  q_values CLIENT_IP (ru_query (mk_rurl [100]%N [])) = [].
+Proof. vm_compute. repeat split. right. left. reflexivity. Qed.
